@@ -43,12 +43,9 @@ class HarnessAction:
         if self.nested:
             for op in self.nested:
                 if op[0] == 'snapshot':
-                    # a checkpoint taken from inside the running simulation: the Environment is deep-copied (and the
-                    # copy thrown away); the original must not notice
-                    import copy
-                    with instrument.probing():
-                        copy.deepcopy(r.env)
-                    r.sh.count('snapshots_taken_inside_an_action')
+                    # a checkpoint taken from inside the running simulation: the Environment is deep-copied; the
+                    # original must not notice, and the copy holds the live events the original holds
+                    r.snapshot(inside=True)
                     continue
                 if op[0] == 'raise':
                     # only when the caller drives the queue with step() and is prepared to catch
@@ -108,9 +105,43 @@ class EvqRun:
         if s.calls != n:
             self.report('at_most_once', f'a second execute() of event {s.brief()} ran its action again', {})
 
+    def snapshot(self, inside):
+        import copy
+        import pickle
+        env = self.env
+        how = 'deepcopy'
+        with instrument.probing():
+            if self.labels % 3 == 0:
+                try:
+                    c = pickle.loads(pickle.dumps(env))
+                    how = 'pickle'
+                except Exception:
+                    c = copy.deepcopy(env)      # (harness actions cannot always be pickled)
+            else:
+                c = copy.deepcopy(env)
+
+        def live(evs, skip_end_marker):
+            return sorted((e.time, e.asset_id, float(e.event_type), e.paused_at is not None) for e in evs
+                          if not e.cancelled and not (skip_end_marker and e.asset_id == -1 and e.event_type == 1))
+        self.sh.count('snapshots_taken_inside_an_action' if inside else 'snapshots_taken_between_operations')
+        # (an implementation may leave the end marker of the run in progress out of a copy; nothing else)
+        if live(c._events, True) != live(env._events, True):
+            self.report('copy_pending_events', f'{how} of the Environment at {env.now!r}: the copy\'s live pending events '
+                        f'{live(c._events, True)[:4]}.. differ from the original\'s {live(env._events, True)[:4]}..', {})
+        elif live(c._paused_events, False) != live(env._paused_events, False):
+            self.report('copy_paused_events', f'{how} of the Environment at {env.now!r}: the copy\'s live paused events '
+                        f'{live(c._paused_events, False)[:4]}.. differ from the original\'s '
+                        f'{live(env._paused_events, False)[:4]}..', {})
+        elif c.now != env.now:
+            self.report('copy_pending_events', f'{how} of the Environment: clock {c.now!r} vs {env.now!r}', {})
+
     def apply(self, op, nested=False):
         env = self.env
         kind = op[0]
+        if kind == 'snapshot':
+            if not nested:
+                self.snapshot(inside=False)
+            return
         if kind == 'sched':
             _, asset, dt, prio, inner = op
             self.labels += 1
@@ -302,6 +333,8 @@ def random_ops(rng, decimal=False, pause_centric=False, aim_pauses=False, bigint
                     ops.append(['unpause', a])
             else:
                 ops.append(['cancel', a])
+        elif x < 0.43 + w_pause:
+            ops.append(['snapshot'])
         elif x < 0.75:
             ops.append(['step'])
         else:
